@@ -171,6 +171,13 @@ class Interp:
             if isinstance(s, ast.Assign) and len(s.targets) == 1 and isinstance(s.targets[0], ast.Name):
                 env[s.targets[0].id] = self._expr(s.value, env, present, depth)
                 continue
+            if isinstance(s, ast.Assign) and len(s.targets) == 1 and isinstance(s.targets[0], ast.Tuple) \
+                    and isinstance(s.value, ast.Tuple) and len(s.value.elts) == len(s.targets[0].elts) \
+                    and all(isinstance(x, ast.Name) for x in s.targets[0].elts):
+                vals = [self._expr(v, env, present, depth) for v in s.value.elts]      # right side first, as Python does
+                for x, v in zip(s.targets[0].elts, vals):
+                    env[x.id] = v
+                continue
             if isinstance(s, ast.AnnAssign) and isinstance(s.target, ast.Name) and s.value is not None:
                 env[s.target.id] = self._expr(s.value, env, present, depth)
                 continue
@@ -330,6 +337,8 @@ class Interp:
             args = [E(a) for a in n.args]
             if m == "cast" and args and args[0][0] == "const":
                 return ("cast", recv, str(args[0][1]).lower())
+            if m in ("isNull", "isNotNull") and not args:
+                return ("isnull" if m == "isNull" else "notnull", recv)
             if m in ("when", "otherwise", "else_", "alias", "substr"):
                 return ("method", recv, m, args)
             raise Untranslatable(f"method .{m} not understood")
@@ -447,12 +456,16 @@ def generate(repo: str):
         need(ex and ex[0] == "list" and len(ex[1]) == 1, f"{who}: Bracket.expressions is not a single index")
         cond, by, old = shift_of(strip(ex[1][0]), who)
         need(is_param(old, valname), f"{who}: the index is not the index argument")
-        return cond, by
-    c, b = bracket(I.function("element_at"), "element_at", "col", "value")
-    fact("element_at", "shift_cfg", f"mkShift {c} ({b})", ["element_at", "element_at_using_brackets"],
-         "index re-based by sqlframe before sqlglot's DuckDB generator adds INDEX_OFFSET")
-    c, b = bracket(I.function("try_element_at"), "try_element_at", "col", "extraction")
-    fact("try_element_at", "shift_cfg", f"mkShift {c} ({b})", ["try_element_at"])
+        off = t[2].get("offset", ("const", 0))
+        need(off[0] == "const" and isinstance(off[1], int) and not isinstance(off[1], bool), f"{who}: Bracket.offset is not an integer literal")
+        need(set(t[2]) <= {"this", "expressions", "offset", "safe"}, f"{who}: unexpected Bracket arguments {sorted(t[2])}")
+        return cond, by, off[1]
+    c, b, o = bracket(I.function("element_at"), "element_at", "col", "value")
+    fact("element_at", "shift_cfg", f"mkShift {c} ({b}) ({o})", ["element_at", "element_at_using_brackets"],
+         "how the index reaches the Bracket: conditional re-basing by sqlframe and the Bracket's offset argument "
+         "(sqlglot's DuckDB generator adds INDEX_OFFSET - offset to integer-typed indices)")
+    c, b, o = bracket(I.function("try_element_at"), "try_element_at", "col", "extraction")
+    fact("try_element_at", "shift_cfg", f"mkShift {c} ({b}) ({o})", ["try_element_at"])
     t = I.method("Column", "getItem")
     need(t[0] == "call" and t[1] == "element_at" and len(t[2]) == 2 and is_param(t[2][0], "self"),
          f"Column.getItem: not element_at(self, key): {t}")
@@ -460,7 +473,7 @@ def generate(repo: str):
     # key = lit(key) if not isinstance(key, Column) else key   -> coercion;  then the conditional shift
     c, b, old = shift_of(key, "Column.getItem")
     need(is_param(old, "key"), "Column.getItem: shifted value is not the key")
-    fact("getitem", "shift_cfg", f"mkShift {c} ({b})", ["getItem"])
+    fact("getitem", "shift_cfg", f"mkShift {c} ({b}) (0)", ["getItem"])
 
     # ---- array_min / array_max --------------------------------------------------------------------------------
     for f in ("array_min", "array_max"):
@@ -478,12 +491,16 @@ def generate(repo: str):
 
     # ---- array_position -------------------------------------------------------------------------------------
     t = I.function("array_position")
-    need(t[0] == "call" and t[1] == "coalesce" and len(t[2]) == 2, f"array_position: not coalesce(prim, default): {t}")
+    guard = False
+    if t[0] == "call" and t[1] == "when" and len(t[2]) == 2:
+        need(t[2][0][0] == "notnull" and is_param(t[2][0][1], "col"), f"array_position: guard is not `col IS NOT NULL`: {t[2][0]}")
+        guard, t = True, t[2][1]
+    need(t[0] == "call" and t[1] == "coalesce" and len(t[2]) == 2, f"array_position: not [when(col.isNotNull(),] coalesce(prim, default)[)]: {t}")
     p = t[2][0]
     need(p[0] == "anon" and p[1] == "ARRAY_POSITION" and len(p[2]) == 2 and is_param(p[2][0], "col") and is_param(p[2][1], "value"),
          f"array_position: primitive is not ARRAY_POSITION(col, value): {p}")
     k = int_const(t[2][1])
-    fact("pos", "pos_cfg", f"mkPos {'None' if k is None else f'(Some ({k}))'}", ["array_position"])
+    fact("pos", "pos_cfg", f"mkPos {'None' if k is None else f'(Some ({k}))'} {'true' if guard else 'false'}", ["array_position"])
 
     # ---- factorial --------------------------------------------------------------------------------------------
     t = I.function("factorial")
@@ -500,13 +517,19 @@ def generate(repo: str):
 
     # ---- rint -------------------------------------------------------------------------------------------------
     t = I.function("rint")
-    need(t[0] == "call" and t[1] == "round" and len(t[2]) == 2 and is_param(t[2][0], "col"), f"rint: not round(col, k): {t}")
-    k = int_const(t[2][1])
-    need(k is not None, "rint: scale is not an integer literal")
-    r = I.function("round", present={"scale": True})
-    need(r[0] == "exp" and r[1] == "Round" and is_param(r[2]["this"], "col") and is_param(r[2].get("decimals"), "scale"),
-         f"round(col, scale) is not Round(this=col, decimals=scale): {r}")
-    fact("rint", "rint_cfg", f"mkRint true ({k})", ["rint", "rint_from_round", "round"])
+    if t[0] == "anon" and t[1] == "ROUND_EVEN":
+        need(len(t[2]) == 2 and is_param(t[2][0], "col"), f"rint: not ROUND_EVEN(col, k): {t}")
+        k = int_const(t[2][1])
+        need(k is not None, "rint: scale is not an integer literal")
+        fact("rint", "rint_cfg", f"mkRint RoundHalfEven ({k})", ["rint"])
+    else:
+        need(t[0] == "call" and t[1] == "round" and len(t[2]) == 2 and is_param(t[2][0], "col"), f"rint: not round(col, k) / ROUND_EVEN(col, k): {t}")
+        k = int_const(t[2][1])
+        need(k is not None, "rint: scale is not an integer literal")
+        r = I.function("round", present={"scale": True})
+        need(r[0] == "exp" and r[1] == "Round" and is_param(r[2]["this"], "col") and is_param(r[2].get("decimals"), "scale"),
+             f"round(col, scale) is not Round(this=col, decimals=scale): {r}")
+        fact("rint", "rint_cfg", f"mkRint RoundHalfAway ({k})", ["rint", "rint_from_round", "round"])
 
     # ---- dayofweek --------------------------------------------------------------------------------------------
     t = I.function("dayofweek")
@@ -586,7 +609,10 @@ def generate(repo: str):
     w = t[1]
     need(w[0] == "call" and w[1] == "when" and len(w[2]) == 2, "nanvl: not when(cond, value)")
     cond, then_, else_ = w[2][0], w[2][1], t[3][0]
-    neg = False
+    neg = guard = False
+    if cond[0] == "bin" and cond[1] == "or":
+        need(cond[2][0] == "isnull" and is_param(cond[2][1], "col1"), f"nanvl: left disjunct is not `col1 IS NULL`: {cond[2]}")
+        guard, cond = True, cond[3]
     if cond[0] == "un" and cond[1] == "invert":
         neg, cond = True, cond[2]
     need(cond[0] == "call" and cond[1] == "isnan" and is_param(cond[2][0], "col1"), "nanvl: condition is not [~]isnan(col1)")
@@ -596,17 +622,26 @@ def generate(repo: str):
         first = False
     else:
         raise Untranslatable("nanvl: branches are not col1 / col2")
-    fact("nanvl", "nanvl_cfg", f"mkNanvl {'true' if neg else 'false'} {'true' if first else 'false'}", ["nanvl", "nanvl_as_case"])
+    fact("nanvl", "nanvl_cfg", f"mkNanvl {'true' if neg else 'false'} {'true' if first else 'false'} {'true' if guard else 'false'}", ["nanvl", "nanvl_as_case"])
 
     # ---- sequence ---------------------------------------------------------------------------------------------
     t = I.function("sequence")
     need(t[0] == "anon" and t[1] == "GENERATE_SERIES" and len(t[2]) == 3 and is_param(t[2][0], "start") and is_param(t[2][1], "stop"),
          f"sequence: not GENERATE_SERIES(start, stop, step): {t}")
-    k = int_const(t[2][2])
-    need(k is not None, "sequence: default step is not an integer literal")
+    d = t[2][2]
+    k = int_const(d)
+    if k is not None:
+        seq = f"(SeqConst ({k}))"
+    else:
+        need(d[0] == "method" and d[2] == "otherwise" and len(d[3]) == 1 and d[1][0] == "call" and d[1][1] == "when" and len(d[1][2]) == 2,
+             f"sequence: default step is neither a literal nor when(start <op> stop, a).otherwise(b): {d}")
+        c, asc, desc = d[1][2][0], int_const(d[1][2][1]), int_const(d[3][0])
+        need(c[0] == "cmp" and is_param(c[2], "start") and is_param(c[3], "stop"), f"sequence: default step does not compare start with stop: {c}")
+        need(asc is not None and desc is not None, "sequence: default steps are not integer literals")
+        seq = f"(SeqBySign {CMPOP[c[1]]} ({asc}) ({desc}))"
     t2 = I.function("sequence", present={"step": True})
     need(t2[0] == "anon" and is_param(t2[2][2], "step"), "sequence: explicit step is not passed through")
-    fact("seq_default", "Z", f"({k})", ["sequence", "sequence_from_generate_series"])
+    fact("seq_default", "seq_default", seq, ["sequence", "sequence_from_generate_series"])
 
     # ---- date_add / date_sub ----------------------------------------------------------------------------------
     def dshift(name, other, node_cls):
@@ -644,30 +679,45 @@ def generate(repo: str):
 
     # ---- levenshtein ------------------------------------------------------------------------------------------
     t = I.function("levenshtein", present={"threshold": True})
-    # expression.case().when(LTE(this=value, expression=lit(threshold)), value).else_(lit(-1))
-    need(t[0] == "method" and t[2] == "else_" and len(t[3]) == 1, f"levenshtein: not case().when().else_(): {t}")
+    # case().when(LTE(dist, t), dist).else_(lit(-1))      |      case().when(LTE(dist, t), dist).when(GT(dist, t), lit(-1))
+    need(t[0] == "method" and t[2] in ("else_", "when"), f"levenshtein: not case().when()...: {t}")
     w = t[1]
     need(w[0] == "method" and w[2] == "when" and w[1] == ("case0",) and len(w[3]) == 2, "levenshtein: not case().when(c, v)")
     cnd, val = w[3]
     need(cnd[0] == "exp" and cnd[1] in CMPOP and cnd[2]["this"] == val, "levenshtein: condition does not compare the distance itself")
     need(val[0] == "exp" and val[1] == "Levenshtein" and is_param(val[2]["this"], "left") and is_param(val[2]["expression"], "right"),
          "levenshtein: distance is not Levenshtein(left, right)")
-    thr = strip(cnd[2]["expression"])
-    need(thr == ("call", "lit", [("param", "threshold")]) or thr == ("param", "threshold"), "levenshtein: not compared with the threshold")
-    k = int_const(t[3][0])
-    need(k is not None, "levenshtein: else value is not an integer literal")
-    fact("lev", "lev_cfg", f"mkLev {CMPOP[cnd[1]]} ({k})", ["levenshtein"])
+
+    def is_thr(x):
+        x = strip(x)
+        return x == ("call", "lit", [("param", "threshold")]) or x == ("param", "threshold")
+    need(is_thr(cnd[2]["expression"]), "levenshtein: not compared with the threshold")
+    if t[2] == "else_":
+        need(len(t[3]) == 1, "levenshtein: else_ arity")
+        k, else_cmp = int_const(t[3][0]), "None"
+    else:
+        need(len(t[3]) == 2, "levenshtein: second when arity")
+        c2 = t[3][0]
+        need(c2[0] == "exp" and c2[1] in CMPOP and c2[2]["this"] == val and is_thr(c2[2]["expression"]),
+             f"levenshtein: second condition does not compare the distance with the threshold: {c2}")
+        k, else_cmp = int_const(t[3][1]), f"(Some {CMPOP[c2[1]]})"
+    need(k is not None, "levenshtein: the out-of-threshold value is not an integer literal")
+    fact("lev", "lev_cfg", f"mkLev {CMPOP[cnd[1]]} ({k}) {else_cmp}", ["levenshtein"])
 
     # ---- unix_millis ------------------------------------------------------------------------------------------
     t = I.function("unix_millis")
-    need(t[0] == "exp" and t[1] == "Cast" and t[2]["to"] == ("dtype", "bigint"), f"unix_millis: not CAST(.. AS BIGINT): {t}")
-    m = t[2]["this"]
-    need(m[0] == "exp" and m[1] == "Mul" and m[2]["this"] == ("call", "unix_seconds", [("param", "col")]), "unix_millis: not unix_seconds(col) * k")
-    k = int_const(m[2]["expression"])
-    need(k is not None, "unix_millis: multiplier is not an integer literal")
-    u = I.function("unix_seconds")
-    need(u[0] == "exp" and u[1] == "UnixSeconds" and is_param(u[2]["this"], "col"), "unix_seconds is not UnixSeconds(col)")
-    fact("unix_millis", "Z", f"({k})", ["unix_millis", "unix_millis_multiply_epoch", "unix_seconds"])
+    if t[0] == "anon" and t[1] == "EPOCH_MS":
+        need(len(t[2]) == 1 and is_param(t[2][0], "col"), f"unix_millis: not EPOCH_MS(col): {t}")
+        fact("unix_millis", "millis_cfg", "MillisEpochMs", ["unix_millis"])
+    else:
+        need(t[0] == "exp" and t[1] == "Cast" and t[2]["to"] == ("dtype", "bigint"), f"unix_millis: neither EPOCH_MS(col) nor CAST(.. AS BIGINT): {t}")
+        m = t[2]["this"]
+        need(m[0] == "exp" and m[1] == "Mul" and m[2]["this"] == ("call", "unix_seconds", [("param", "col")]), "unix_millis: not unix_seconds(col) * k")
+        k = int_const(m[2]["expression"])
+        need(k is not None, "unix_millis: multiplier is not an integer literal")
+        u = I.function("unix_seconds")
+        need(u[0] == "exp" and u[1] == "UnixSeconds" and is_param(u[2]["this"], "col"), "unix_seconds is not UnixSeconds(col)")
+        fact("unix_millis", "millis_cfg", f"(MillisFromSeconds ({k}))", ["unix_millis", "unix_millis_multiply_epoch", "unix_seconds"])
 
     L.append("Definition c17_facts : facts := mkFacts c17_slice c17_element_at c17_try_element_at c17_getitem "
              "c17_array_min_idx c17_array_max_idx c17_pos c17_fact c17_rint c17_dow c17_overlay c17_overlap c17_union "
